@@ -12,9 +12,9 @@ import (
 // RSAParts is a consistent RSA key (n, e, d, p, q, dp, dq, qinv as minimal big-endian bytes)
 // outside the library's minimum strength: short modulus and/or public exponent != 65537.
 type RSAParts struct {
-	Label                       string
-	Bits                        int
-	E                           int64
+	Label                        string
+	Bits                         int
+	E                            int64
 	N, Eb, D, P, Q, DP, DQ, QInv []byte
 }
 
